@@ -56,7 +56,12 @@ impl<T: Types> PayloadCache<T> {
     pub(crate) fn insert(&mut self, key: T::LogId, value: T::LogPayload) {
         let payload_size = T::payload_size(&value) as usize;
 
-        self.cache.insert(key, value);
+        // The key may already be resident (e.g. `last` was moved back with
+        // `update_state()` and the same log id is appended again): the
+        // replaced payload no longer counts.
+        if let Some(replaced) = self.cache.insert(key, value) {
+            self.size -= T::payload_size(&replaced) as usize;
+        }
         self.size += payload_size;
 
         self.try_evict();
